@@ -25,14 +25,16 @@ def gen(rnd, n, kind):
         return [2.5] * n
     if kind == "spike":
         return [0.0 if rnd.random() < .8 else rnd.choice([1e3, -1e3]) for _ in range(n)]
+    if kind == "outlier":        # values of order one with rare huge (finite) outliers that later leave the window
+        return [rnd.choice([1e17, -1e15, 1e13]) if rnd.random() < 0.08 else rnd.uniform(0.5, 2.0) for _ in range(n)]
     raise ValueError(kind)
 
 
-KINDS = ["ramp", "ints", "uniform", "offset", "np64", "npint", "const", "spike"]
+KINDS = ["ramp", "ints", "uniform", "offset", "np64", "npint", "const", "spike", "outlier"]
 
 
 def main(run):
-    run.rule = ("window sizes k in {1,2,3,4,5,8,13,64} (thorough also 100, 257), streams of length up to 5k+3 in 8 value "
+    run.rule = ("window sizes k in {1,2,3,4,5,8,13,64} (thorough also 100, 257), streams of length up to 5k+3 in 9 value "
                 "patterns / numeric types; after EVERY update get(), mean, var, std are compared with the exact statistics "
                 "(rational arithmetic) of values[-min(n,k):], tolerance 1e-12*scale; construction on the interpreter's NumPy is "
                 "part of the monitored behaviour; evaluations = comparisons; non-trivial = prefixes with n > k (window "
